@@ -171,7 +171,7 @@ theorem prop_select {name : Str} {f : CField} (hname : isIdent name = true) (hf 
       (vs := [freshMsg sField, sStr name, .absent, .absent, .absent, .absent]) (i := 0) (a := e) rfl h2'
     rw [List.append_assoc] at h
     exact h
-  exact buildScope_keep (combinePath_ident (kind_ascii f) [b!"schema"])
+  exact buildScope_keep_run (combinePath_ident (kind_ascii f) [b!"schema"])
     (walkScope_cons h1 (walkScope_cons h2 (walkScope_nil _ _ _)))
 
 /-- a run inside the type message of a property, seen from the property -/
